@@ -2,29 +2,25 @@
 
 // C16 — Curve and signature gadgets match native results, exceptional cases
 // included.  Differential monitor (gnark's test engine executes the gadgets on
-// directed ∪ random inputs; an independent big.Int group law, gnark-crypto,
-// crypto/ecdsa and crypto/elliptic say what must come out) plus an adversarial
-// monitor (compiled circuits solved with lying decomposition hints).
+// directed ∪ random inputs in worker processes; an independent big.Int group
+// law, gnark-crypto, crypto/ecdsa and crypto/elliptic say what must come out)
+// plus an adversarial monitor (compiled circuits solved with lying
+// decomposition hints, adversary_test.go).
 package c16
 
 import (
+	"fmt"
+	"math/big"
+	"math/rand/v2"
 	"os"
+	"sort"
 	"strings"
 	"sync"
 	"testing"
+	"time"
 
 	"github.com/consensys/gnark/verifharness/internal/vcore"
 )
-
-// job is one unit of work; run executes it, seq re-executes what needs a
-// sequential confirmation.
-type job struct {
-	family string
-	cost   int // rough milliseconds, for longest-first scheduling
-	run    func()
-}
-
-var seqMu sync.Mutex // held while a violation candidate is re-executed alone
 
 func only(fam string) bool {
 	o := os.Getenv("VERIF_C16_ONLY")
@@ -39,21 +35,312 @@ func only(fam string) bool {
 	return false
 }
 
+// runOneShot runs a single task in a worker that is killed afterwards (the hint
+// screen leaves spinning goroutines behind when a hint does not return).
+func runOneShot(t task, wd time.Duration) outcome {
+	var res outcome
+	t.done = func(o outcome) { res = o }
+	t.watchdog = wd
+	runPool(nil, []task{t}, 1, wd)
+	return res
+}
+
+// pick keeps n elements of a list chosen by the seeded stream (all when n<=0 or
+// the list is shorter), preserving order.
+func pick[T any](rng *rand.Rand, list []T, n int) []T {
+	if n <= 0 || len(list) <= n {
+		return list
+	}
+	idx := rng.Perm(len(list))[:n]
+	sort.Ints(idx)
+	out := make([]T, n)
+	for i, j := range idx {
+		out[i] = list[j]
+	}
+	return out
+}
+
 func TestC16(t *testing.T) {
+	if os.Getenv("VERIF_C16_CHILD") == "1" {
+		childMain()
+		return
+	}
 	r := vcore.Start(t, "C16")
-	var jobs []job
+	quick := r.Quick()
 	if only("selfcheck") {
 		selfCheck(r)
 	}
-	if only("emu") {
-		jobs = append(jobs, emuJobs(r)...)
+
+	// ---- adversarial part: compiled circuits + lying hints, in this process
+	var advWG sync.WaitGroup
+	if only("adv") {
+		advWG.Add(1)
+		go func() {
+			defer advWG.Done()
+			runAdversary(r)
+		}()
 	}
-	// longest first
-	for i := 1; i < len(jobs); i++ {
-		for j := i; j > 0 && jobs[j].cost > jobs[j-1].cost; j-- {
-			jobs[j], jobs[j-1] = jobs[j-1], jobs[j]
+
+	var tasks []task
+	var probes []hintProbe
+	var emu *emuPlan
+	if only("emu") {
+		emu = planEmu(r)
+		for _, c := range emu.cases {
+			probes = append(probes, emu.hintInputs(c)...)
 		}
 	}
-	vcore.Parallel(len(jobs), 12, func(i int) { jobs[i].run() })
-	r.Finish("exploration", "TODO", nil)
+
+	// ---- hint liveness screen
+	stuck := map[string]bool{}
+	stuckProbes := map[string]hintProbe{}
+	if len(probes) > 0 {
+		seen := map[string]bool{}
+		var uniq []hintProbe
+		for _, p := range probes {
+			if k := probeKey(p); !seen[k] {
+				seen[k] = true
+				uniq = append(uniq, p)
+			}
+		}
+		wait := 8 * time.Second
+		o := runOneShot(task{fam: "hintscreen", data: screenReq{Items: uniq, WaitMs: int(wait / time.Millisecond)}}, wait+60*time.Second)
+		if o.Hang || o.Crash != "" || !o.Sat {
+			r.Inconclusive("hint-screen-did-not-run")
+			r.Count("hintscreen.failed", 1)
+		} else {
+			done := map[int]bool{}
+			for _, i := range o.Done {
+				done[i] = true
+			}
+			for i, p := range uniq {
+				r.Count("hintscreen.calls."+p.Hint, 1)
+				if e, bad := o.Vals[fmt.Sprint(i)]; bad {
+					r.Count("hintscreen.hint-returned-error."+p.Hint, 1)
+					r.SampleClass("hint-error/"+p.Hint, map[string]any{"curve": p.Curve, "inputs": bigStrs(p.Inputs), "error": e})
+				}
+				if !done[i] {
+					stuck[probeKey(p)] = true
+					stuckProbes[probeKey(p)] = p
+					r.Count("hintscreen.NOT-RETURNED."+p.Hint, 1)
+				}
+			}
+		}
+	}
+
+	// ---- test-engine cases in worker processes
+	var hangMu sync.Mutex
+	hangConfirmed, hangRefuted := 0, 0
+	var hangCases []map[string]any
+	var judges []*emuJudge
+	if emu != nil {
+		emuJ := newEmuJudge(r)
+		judges = append(judges, emuJ)
+		tasks = append(tasks, emu.tasks(r, emuJ, stuck, func(c *emuCase, confirmed bool) {
+			hangMu.Lock()
+			defer hangMu.Unlock()
+			if confirmed {
+				hangConfirmed++
+				r.Count("emu.hang-confirmed-in-test-engine", 1)
+				if len(hangCases) < 4 {
+					hangCases = append(hangCases, c.replay())
+				}
+			} else {
+				hangRefuted++
+				r.Count("emu.hang-predicted-but-case-finished", 1)
+			}
+		})...)
+	}
+	if only("ted") {
+		for _, d := range tedCurves() {
+			rng := r.Rand("ted/" + d.Name)
+			cases := d.gen(rng, quick)
+			if quick {
+				cases = pick(rng, cases, 70)
+			}
+			for _, c := range cases {
+				c := c
+				tasks = append(tasks, task{fam: "ted", data: c, cost: 30, done: func(o outcome) { judgeTed(r, c, o) }})
+			}
+		}
+	}
+	if only("nsw") {
+		for _, n := range nswDescs() {
+			n := n
+			rng := r.Rand("nsw/" + n.tag)
+			g1 := n.genG1(rng)
+			if quick {
+				g1 = sampleEmu(rng, g1, map[string]int{"AddUnified": 12, "Add": 6, "Neg": 2, "ScalarMul": 34, "Curve.ScalarMul": 8, "ScalarMulBase": 10, "MultiScalarMul": 8, "MultiScalarMulFold": 5, "Double": 4, "DoubleAndAdd": 6})
+			}
+			jd := newEmuJudge(r)
+			judges = append(judges, jd)
+			for _, c := range g1 {
+				c := c
+				tasks = append(tasks, task{fam: "nsw1/" + n.tag, data: c, cost: emuCost[c.Op] / 4, done: func(o outcome) { jd.judge(n.d, c, o) }})
+			}
+			g2 := n.genG2(rng, quick)
+			if quick {
+				g2 = pick(rng, g2, 60)
+			}
+			for _, c := range g2 {
+				c := c
+				tasks = append(tasks, task{fam: "nsw2/" + n.tag, data: c, cost: 150, done: func(o outcome) { judgeG2(r, c, o) }})
+			}
+		}
+	}
+	if only("pair") {
+		for _, d := range pairDescs() {
+			d := d
+			rng := r.Rand("pair/" + d.tag)
+			for _, c := range genPair(d, rng, quick) {
+				c := c
+				tasks = append(tasks, task{fam: "pair/" + d.tag, data: c, cost: pairCost(d, c), done: func(o outcome) { judgePair(r, c, o) }})
+			}
+		}
+	}
+	if only("sig") {
+		for _, d := range emuCurves() {
+			if d.c.Name != "secp256k1" && d.c.Name != "P-256" && d.c.Name != "P-384" {
+				continue
+			}
+			rng := r.Rand("ecdsa/" + d.c.Name)
+			cases := genEcdsa(d, rng)
+			if quick && d.c.Name == "P-384" {
+				cases = pick(rng, cases, 10)
+			}
+			for _, c := range cases {
+				c := c
+				tasks = append(tasks, task{fam: "ecdsa", data: c, cost: 700 * curveWeight(d.c.Name), done: func(o outcome) {
+					judgeSig(r, "ecdsa", c.key(), c.Curve, c.Class, c.WantAccept, c.InDomain, o, c.replay())
+				}})
+			}
+		}
+		for _, d := range tedCurves() {
+			rng := r.Rand("eddsa/" + d.Name)
+			cases, err := genEddsa(d, rng)
+			if err != nil {
+				r.Inconclusive("eddsa:oracle:" + err.Error())
+			}
+			for _, c := range cases {
+				c := c
+				tasks = append(tasks, task{fam: "eddsa", data: c, cost: 60, done: func(o outcome) {
+					judgeSig(r, "eddsa", c.key(), c.Curve, c.Class, c.WantAccept, c.InDomain, o, c.replay())
+				}})
+			}
+		}
+	}
+	if only("evm") {
+		var secp *emuCurveDesc
+		for _, d := range emuCurves() {
+			if d.c.Name == "secp256k1" {
+				secp = d
+			}
+		}
+		rng := r.Rand("evm")
+		for _, c := range genEcrec(secp, rng) {
+			c := c
+			tasks = append(tasks, task{fam: "ecrecover", data: c, cost: 900, done: func(o outcome) { judgeEcrec(r, c, o) }})
+		}
+		for _, c := range genExpmod(rng, quick) {
+			c := c
+			tasks = append(tasks, task{fam: "expmod", data: c, cost: c.Width * 2, done: func(o outcome) { judgeExpmod(r, c, o) }})
+		}
+		for _, c := range genEcpair(rng, quick) {
+			c := c
+			tasks = append(tasks, task{fam: "ecpair", data: c, cost: 3000, done: func(o outcome) { judgeEcpair(r, c, o) }})
+		}
+	}
+	workers := 12
+	r.Set("worker_processes", workers)
+	runPool(r, tasks, workers, 5*time.Minute)
+	for _, j := range judges {
+		j.finish()
+	}
+
+	// ---- hint non-termination verdict
+	if len(stuck) > 0 {
+		byHint := map[string][]hintProbe{}
+		for _, p := range stuckProbes {
+			byHint[p.Hint] = append(byHint[p.Hint], p)
+		}
+		var hs []string
+		for h := range byHint {
+			hs = append(hs, h)
+		}
+		sort.Strings(hs)
+		for _, h := range hs {
+			ps := byHint[h]
+			sort.Slice(ps, func(i, j int) bool { return probeKey(ps[i]) < probeKey(ps[j]) })
+			var ins []map[string]any
+			curves := map[string]bool{}
+			for _, p := range ps {
+				curves[p.Curve] = true
+				if len(ins) < 12 {
+					ins = append(ins, map[string]any{"curve": p.Curve, "class": p.Class, "inputs": bigStrs(p.Inputs)})
+				}
+			}
+			if hangConfirmed == 0 && hangRefuted > 0 {
+				r.Inconclusive("hint-screen-and-test-engine-disagree:" + h)
+				continue
+			}
+			var cs []string
+			for c := range curves {
+				cs = append(cs, c)
+			}
+			sort.Strings(cs)
+			r.Violation("hint-does-not-terminate/"+h,
+				fmt.Sprintf("the registered hint %s did not return within 8 s on %d distinct inputs (curves %v; normal duration < 10 ms); ScalarMul / Solve hang on these scalars (confirmed in the test engine on %d sampled cases, watchdog 25 s)", h, len(ps), cs, hangConfirmed),
+				map[string]any{"hint": h, "inputs_that_do_not_return": ins, "engine_cases_that_hung": hangCases})
+		}
+	}
+	advWG.Wait()
+	finish(r)
+}
+
+func bigStrs(v []*big.Int) []string {
+	s := make([]string, len(v))
+	for i := range v {
+		if v[i] == nil {
+			s[i] = "nil"
+		} else {
+			s[i] = v[i].String()
+		}
+	}
+	return s
+}
+
+func finish(r *vcore.Run) {
+	if os.Getenv("VERIF_C16_ONLY") == "" && os.Getenv("VERIF_C16_CURVES") == "" {
+		r.Require("emu.in-domain.correct", 100)
+		r.Require("emu.result-at-infinity.correct", 5)
+		r.Require("emu.oncurve.rejected-off-curve", 3)
+		r.Require("ted.in-domain.correct", 100)
+		r.Require("nsw.in-domain.correct", 40)
+		r.Require("nsw.g2.in-domain.correct", 20)
+		r.Require("pair.accepted-as-native", 10)
+		r.Require("pair.rejected-as-native", 5)
+		r.Require("ecdsa.accepted-valid", 3)
+		r.Require("ecdsa.rejected-invalid", 10)
+		r.Require("eddsa.accepted-valid", 10)
+		r.Require("eddsa.rejected-invalid", 10)
+		r.Require("evm.ecrecover.correct", 3)
+		r.Require("evm.ecrecover.rejected-as-specified", 5)
+		r.Require("evm.expmod.correct", 10)
+		r.Require("evm.ecpair.accepted-as-native", 3)
+		r.Require("evm.ecpair.rejected-as-native", 3)
+		r.Require("adv.hint-calls-intercepted", 20)
+		r.Require("adv.lies.solve-failed", 10)
+		r.Require("adv.honest.solved-and-correct", 3)
+		r.Require("hintscreen.calls.sw_emulated.halfGCDEisenstein", 10)
+	}
+	r.Finish("exploration",
+		"one case = (gadget method, curve, option set, input tuple): executed by gnark's test engine in a worker process (or compiled and solved, adversarial part), result captured at a hint call and compared with the oracle. "+
+			"distinct = hash of (family, curve, method, options, input class, concrete inputs); non-trivial = every executed case (each has an oracle verdict: value, must-accept or must-reject)",
+		[]string{
+			"oracle: textbook affine group laws in math/big, cross-checked at start against gnark-crypto / crypto/elliptic / crypto/ecdsa / gnark-crypto EdDSA (selfcheck.* counters); pairings, G2 arithmetic and MiMC come from gnark-crypto directly",
+			"documented domain: inputs a method's doc comment excludes (⚠️ preconditions of the incomplete formulas: P=±Q, (0,0), zero scalar without WithCompleteArithmetic) are executed and counted but give no verdict, since the value is undefined by design; where the documentation is silent (twisted Edwards, signatures, pairings with identity inputs) only 'unsatisfiable or equal to the native result' is demanded",
+			"a hint that has not returned after 8 s (screen) and a test-engine case that has not returned after 25 s / 5 min (watchdog) are treated as non-terminating",
+			"curve constants (a, b, generator, order) are inputs of the statement and are read from gnark's parameter tables; P-256/P-384 are compared with crypto/elliptic",
+			"adversarial part: only the lies implemented in adversary_test.go; a lie that is accepted with the same result is not a violation",
+		})
 }
